@@ -220,6 +220,20 @@ def check(ctx):
                                             (isinstance(sfarg, ast.Attribute) and isinstance(sfarg.value, ast.Name) and f.pos_params
                                              and sfarg.value.id == f.pos_params[0] and f.cls is not None))
                 why_ = "Call(...) is constructed without the frame handed to its creator"
+                if ok and isinstance(sfarg, ast.Attribute):
+                    # a frame kept on the creating object is that object's for life: set by its constructor only.  An attribute that
+                    # other methods rebind is a parking place shared by every thread building on the object - between one thread's
+                    # "set the call site" and its construction of the call another thread's capture can take its place
+                    setters = sorted({g.qualname for g in m.funcs.values() if g.cls is f.cls and g.name not in ("__init__", "__post_init__")
+                                      for n_ in g.own_nodes() if isinstance(n_, (ast.Assign, ast.AugAssign, ast.AnnAssign))
+                                      for t_ in (n_.targets if isinstance(n_, ast.Assign) else [n_.target])
+                                      for x_ in ast.walk(t_) if isinstance(x_, ast.Attribute) and x_.attr == sfarg.attr
+                                      and isinstance(x_.ctx, ast.Store)})
+                    if setters:
+                        ok = False
+                        why_ = (f"the frame of the created call is read from `{norm(sfarg)}`, which {setters[0]} rebinds: a captured frame parked in "
+                                f"state shared by all users of the object can be replaced by another thread's capture before the call is constructed "
+                                f"(the failure is then attributed to the wrong line)")
                 if ok and isinstance(sfarg, ast.Name):
                     # ... the very object handed in: no rebinding of the parameter reaches the construction (an interned / rebuilt /
                     # looked-up frame is another capture's chain)
